@@ -1,6 +1,7 @@
 package props
 
 import (
+	"bytes"
 	"fmt"
 	"sort"
 	"strings"
@@ -114,12 +115,17 @@ func c05setOps(key string) []gwOp {
 	return ops
 }
 
+// mp encodes v as MessagePack with map keys in sorted order: the bytes of a test input must not depend on Go's
+// map iteration order (a body that is byte-identical to the stored one takes a different path through Save than one
+// whose fields are merely in another order).
 func mp(v any) []byte {
-	b, err := msgpack.Marshal(v)
-	if err != nil {
+	var buf bytes.Buffer
+	enc := msgpack.NewEncoder(&buf)
+	enc.SetSortMapKeys(true)
+	if err := enc.Encode(v); err != nil {
 		panic(err)
 	}
-	return b
+	return buf.Bytes()
 }
 
 func c05ops() []gwOp {
